@@ -9,10 +9,25 @@ operands (simple or compound, both positions); map-queries must be equal to noth
 import collections
 import datetime as dt
 import re
+import zoneinfo
 
 from .. import alphabet, common, qast, univ
 from .base import viol
 from . import c09
+
+
+# 2021-10-31 01:30 Europe/London happens twice: at 00:30Z (fold=0, BST) and at 01:30Z (fold=1, GMT)
+FOLD0 = dt.datetime(2021, 10, 31, 1, 30, tzinfo=zoneinfo.ZoneInfo("Europe/London"))
+FOLD1 = FOLD0.replace(fold=1)
+QUICK_ATOMS = 35
+
+
+def fold_points(alpha):
+    """Points at and between the two instants, so that the two readings are told apart."""
+    out = []
+    for h, m in ((0, 30), (1, 0), (1, 30)):
+        out.append((dt.datetime(2021, 10, 31, h, m, tzinfo=dt.timezone.utc), "m", {"a": alpha.x, "b": alpha.x}, {"v": 1, "w": 1}))
+    return out
 
 
 def confusable_atoms(alpha, n=None):
@@ -49,6 +64,13 @@ def confusable_atoms(alpha, n=None):
         ("cmp", "fields", ("v",), "==", -2),
         ("cmp", "fields", ("w",), "==", 0),                     # hash(0) == hash(2**61 - 1)
         ("cmp", "fields", ("w",), "==", 2**61 - 1),
+        # the two readings of a repeated wall-clock hour: == and hash() of datetime ignore fold inside one zone
+        ("cmp", "time", (), "==", FOLD0),
+        ("cmp", "time", (), "==", FOLD1),
+        ("cmp", "time", (), "<", FOLD0),
+        ("cmp", "time", (), "<", FOLD1),
+        ("test", "time", (), "gt", (FOLD0,)),
+        ("test", "time", (), "gt", (FOLD1,)),
         # --- beyond the quick slice
         ("cmp", "fields", ("w",), "==", 1),
         ("cmp", "tags", ("a",), "==", None),
@@ -105,7 +127,7 @@ class C17(univ.UnivCheck):
     def __init__(self, tier, seed):
         super().__init__(tier, seed)
         self.alpha = alphabet.Alphabet(seed)
-        atoms = confusable_atoms(self.alpha, 29 if tier == "quick" else None)
+        atoms = confusable_atoms(self.alpha, QUICK_ATOMS if tier == "quick" else None)
         reps = [atoms[0], atoms[1], atoms[2], atoms[3]]
         self.fams = [("depth1-all-atoms", c09.step_asts(atoms))]
         if tier != "quick":
@@ -113,8 +135,8 @@ class C17(univ.UnivCheck):
         else:
             self.fams.append(("depth2-2reps", c09.step_asts(c09.step_asts(reps[1:3]))))
         # commutativity operands: depth<=1 terms over a slice of the atoms
-        self.comm_terms = c09.step_asts(atoms[: 12 if tier == "quick" else 24] + atoms[24:29])
-        self.U = c09.point_universe(self.alpha)
+        self.comm_terms = c09.step_asts(atoms[: 12 if tier == "quick" else 24] + atoms[24:QUICK_ATOMS])
+        self.U = c09.point_universe(self.alpha) + fold_points(self.alpha)
         self.rows = []  # (family index | -1 for commutativity, row)
         for fi, (_, terms) in enumerate(self.fams):
             self.rows += [(fi, i) for i in range(len(terms))]
@@ -123,9 +145,10 @@ class C17(univ.UnivCheck):
 
     def rule(self):
         return (
-            "all ordered pairs of depth<=1 terms over the confusable vocabulary (24 atoms quick / 60 thorough) and of "
+            "all ordered pairs of depth<=1 terms over the confusable vocabulary (35 atoms quick / 72 thorough; incl. 1 vs 1.0 vs True, "
+            "-1 vs -2, regex flags, the two folds of a repeated hour) and of "
             "depth<=2 terms over 2/4 representatives: q1==q2 must imply equal hashes and equal truth vectors over the "
-            "378-point universe; (a&b)==(b&a), (a|b)==(b|a) for all ordered pairs of depth<=1 operands; a term containing "
+            "381-point universe; (a&b)==(b&a), (a|b)==(b|a) for all ordered pairs of depth<=1 operands; a term containing "
             "map() must compare unequal to everything including a rebuilt copy of itself"
         )
 
